@@ -19,7 +19,7 @@ type c03Case struct {
 	Form      string `json:"form,omitempty"` // bare | not
 	Vals      []TV   `json:"vals,omitempty"` // condition values c0..cK (first chain / first item)
 	Vals2     []TV   `json:"vals2,omitempty"`
-	Val       *TV    `json:"val,omitempty"` // uniform part
+	Val       *TV    `json:"val,omitempty"`  // uniform part
 	Path      string `json:"path,omitempty"` // uniform part: "v" or "o.v"
 }
 
